@@ -534,7 +534,10 @@ class Kernel(Module):
             if not isinstance(res, LazyEvaluatedKernelTensor):
                 # With last_dim_is_batch a full (not yet diagonalised) result is `... x d x n x n`; the `... x d x n`
                 # diagonal itself must not be mistaken for a full matrix when d == n.
-                full_dim = x1_.dim() + (1 if last_dim_is_batch else 0)
+                # The kernel's own batch dimensions count too: a `b x n` diagonal of a kernel with batch shape `b`
+                # on un-batched inputs must not be mistaken for a full matrix when b == n.
+                batch_shape = torch.broadcast_shapes(self.batch_shape, x1_.shape[:-2], x2_.shape[:-2])
+                full_dim = len(batch_shape) + 2 + (1 if last_dim_is_batch else 0)
                 if res.dim() == full_dim and res.shape[-2:] == torch.Size((x1_.size(-2), x2_.size(-2))):
                     res = res.diagonal(dim1=-1, dim2=-2)
             return res
